@@ -226,6 +226,10 @@ def build(rng, *, block_size: int, sector_size: int, nblocks: int, tail_cut_sect
     ]
     if has_parent:
         items.append((PARENT_LOCATOR, locator, 4))
+    elif locator is not None:
+        # a disk that is not differencing (HasParent clear) but still carries the locator item of its former parent, as left
+        # behind by a merge / conversion: the flag decides, the item is just another item
+        items.append((PARENT_LOCATOR, locator, rng.choice([0, 4])))
     items.extend(extra_items)
     if meta_item_order == "shuffle":
         rng.shuffle(items)
